@@ -184,7 +184,7 @@ theorem has_pad (lists : List CList) {T : Table} {e : Ent} (h : Has T e) : Has (
 changes nothing** — neither a value nor the position of any language, path or content type.
 Guard: the entry list assigns no leaf two different values (`NoConflict`; with a conflict the last
 assignment wins in both passes and the statement still holds, but this proof does not cover it). -/
-theorem second_setup_noop (lists : List CList) (es : List Ent) (hn : NoConflict es) :
+theorem second_setup_noop_guarded (lists : List CList) (es : List Ent) (hn : NoConflict es) :
     es.foldl ins (pad lists (setup es)) = pad lists (setup es) :=
   foldl_ins_id es _ fun e he => has_pad lists (has_foldl es [] hn e he)
 
@@ -522,20 +522,206 @@ theorem pad_pad (lists : List CList) (T : Table) : pad lists (pad lists T) = pad
   conv => rhs; rw [← List.map_id (List.map _ T)]
   exact List.map_congr_left hmap
 
+/-! ### removing the `NoConflict` guard: overwritten assignments do not matter -/
+
+theorem upd_comm1 {β} {k1 k2 : Str} (hne : k1 ≠ k2) (f g : Option β → β) : ∀ (l : List (Str × β)),
+    k1 ∈ keys l → upd k1 f (upd k2 g l) = upd k2 g (upd k1 f l)
+  | [], h => by simp [keys] at h
+  | (k, v) :: rest, h1 => by
+    by_cases hk1 : k = k1
+    · subst hk1
+      have : ¬ k = k2 := hne
+      simp [upd, this]
+    · by_cases hk2 : k = k2
+      · subst hk2
+        simp [upd, hk1]
+      · have h1' : k1 ∈ keys rest := by
+          simp only [keys, List.map_cons, List.mem_cons] at h1
+          rcases h1 with h | h
+          · exact absurd h.symm hk1
+          · exact h
+        simp [upd, hk1, hk2, upd_comm1 hne f g rest h1']
+
+theorem upd_upd_same {β} (k : Str) (f g : Option β → β) : ∀ (l : List (Str × β)),
+    upd k f (upd k g l) = upd k (fun o => f (some (g o))) l
+  | [] => by simp [upd]
+  | (k', v) :: rest => by
+    by_cases hk : k' = k
+    · simp [upd, hk]
+    · simp [upd, hk, upd_upd_same k f g rest]
+
+theorem upd_congr_at {β} (k : Str) (f g : Option β → β) : ∀ (l : List (Str × β)),
+    f (lookup k l) = g (lookup k l) → upd k f l = upd k g l
+  | [], h => by simpa [upd, lookup] using h
+  | (k', v) :: rest, h => by
+    by_cases hk : k' = k
+    · subst hk; simp only [lookup, if_true] at h; simp [upd, h]
+    · have hk' : ¬ k = k' := fun e => hk e.symm
+      simp only [lookup, hk', if_false] at h
+      simp [upd, hk, upd_congr_at k f g rest h]
+
+def SameKey (a b : Ent) : Prop := a.lang = b.lang ∧ a.path = b.path ∧ a.form = b.form
+instance (a b : Ent) : Decidable (SameKey a b) := by unfold SameKey; infer_instance
+
+/-- the leaf the entry assigns exists already -/
+def Present (T : Table) (e : Ent) : Prop := (valAt T e.lang e.path e.form).isSome
+
+theorem ins_overwrite (A : Table) {x y : Ent} (h : SameKey x y) : ins (ins A x) y = ins A y := by
+  obtain ⟨h1, h2, h3⟩ := h
+  unfold ins
+  rw [h1, upd_upd_same]
+  apply upd_congr_at
+  simp only [Option.getD_some]
+  rw [h2, upd_upd_same]
+  apply upd_congr_at
+  simp only [Option.getD_some]
+  rw [h3, upd_upd_same]
+
+theorem lookup_isSome_keys {β} {k : Str} {l : List (Str × β)} (h : (lookup k l).isSome) : k ∈ keys l := by
+  obtain ⟨v, hv⟩ := Option.isSome_iff_exists.1 h
+  exact mem_keys_of_mem (mem_of_lookup hv)
+
+theorem ins_comm (A : Table) {x m : Ent} (hp : Present A x) (hne : ¬ SameKey x m) :
+    ins (ins A x) m = ins (ins A m) x := by
+  unfold Present valAt at hp
+  cases hl : lookup x.lang A with
+  | none => simp [hl] at hp
+  | some ps =>
+    simp only [hl, Option.bind_some] at hp
+    cases hq : lookup x.path ps with
+    | none => simp [hq] at hp
+    | some fs =>
+      simp only [hq, Option.bind_some] at hp
+      have hlk : x.lang ∈ keys A := lookup_isSome_keys (by rw [hl]; rfl)
+      by_cases h1 : x.lang = m.lang
+      · -- same language
+        unfold ins
+        rw [← h1, upd_upd_same, upd_upd_same]
+        apply upd_congr_at
+        simp only [hl, Option.getD_some]
+        have hpk : x.path ∈ keys ps := lookup_isSome_keys (by rw [hq]; rfl)
+        by_cases h2 : x.path = m.path
+        · rw [← h2, upd_upd_same, upd_upd_same]
+          apply upd_congr_at
+          simp only [hq, Option.getD_some]
+          have h3 : x.form ≠ m.form := fun h3 => hne ⟨h1, h2, h3⟩
+          exact (upd_comm1 h3 _ _ fs (lookup_isSome_keys hp)).symm
+        · exact (upd_comm1 h2 _ _ ps hpk).symm
+      · unfold ins
+        exact (upd_comm1 h1 _ _ A hlk).symm
+
+theorem present_ins (A : Table) (x m : Ent) (h : Present A x) : Present (ins A m) x := by
+  unfold Present at h ⊢
+  by_cases hk : x.lang = m.lang ∧ x.path = m.path ∧ x.form = m.form
+  · rw [hk.1, hk.2.1, hk.2.2, valAt_ins_self]; rfl
+  · rw [valAt_ins_other A m _ _ _ hk]; exact h
+
+theorem present_ins_self (A : Table) (x : Ent) : Present (ins A x) x := by
+  unfold Present; rw [valAt_ins_self]; rfl
+
+/-- an assignment that a later one with the same key overwrites does not influence the result -/
+theorem overwritten_irrelevant {x e1 : Ent} (hk : SameKey x e1) : ∀ (ms : List Ent) (A : Table), Present A x →
+    (ms ++ [e1]).foldl ins (ins A x) = (ms ++ [e1]).foldl ins A
+  | [], A, _ => by simp only [List.nil_append, List.foldl_cons, List.foldl_nil]; exact ins_overwrite A hk
+  | m :: ms, A, hp => by
+    simp only [List.cons_append, List.foldl_cons]
+    by_cases hs : SameKey x m
+    · rw [ins_overwrite A hs]
+    · rw [ins_comm A hp hs]
+      exact overwritten_irrelevant hk ms (ins A m) (present_ins A x m hp)
+
+/-- `e` is the last assignment to its leaf within `e :: rest` -/
+def Final (e : Ent) (rest : List Ent) : Prop := ∀ e' ∈ rest, ¬ SameKey e e'
+
+theorem split_first_same {e : Ent} : ∀ (rest : List Ent), ¬ Final e rest →
+    ∃ ms e1 post, rest = ms ++ e1 :: post ∧ SameKey e e1
+  | [], h => absurd (fun _ h' => by cases h') h
+  | r :: rest, h => by
+    by_cases hs : SameKey e r
+    · exact ⟨[], r, rest, rfl, hs⟩
+    · have : ¬ Final e rest := fun hf => h fun e' he' => by
+        rcases List.mem_cons.1 he' with h' | h'
+        · subst h'; exact hs
+        · exact hf e' h'
+      obtain ⟨ms, e1, post, hr, hk⟩ := split_first_same rest this
+      exact ⟨r :: ms, e1, post, by rw [hr]; rfl, hk⟩
+
+/-- every last assignment finds its own text, every assignment finds its leaf ⇒ nothing changes -/
+theorem foldl_ins_id_final : ∀ (n : Nat) (es : List Ent) (A : Table), es.length = n → (∀ e ∈ es, Present A e) →
+    (∀ pre e post, es = pre ++ e :: post → Final e post → Has A e) → es.foldl ins A = A
+  | _, [], _, _, _, _ => rfl
+  | n + 1, e :: rest, A, hlen, hp, hf => by
+    have hlen' : rest.length = n := by simpa using hlen
+    have hp' : ∀ e' ∈ rest, Present A e' := fun e' he' => hp e' (List.mem_cons_of_mem _ he')
+    have hf' : ∀ pre e' post, rest = pre ++ e' :: post → Final e' post → Has A e' :=
+      fun pre e' post hr hfin => hf (e :: pre) e' post (by rw [hr]; rfl) hfin
+    simp only [List.foldl_cons]
+    by_cases hfin : Final e rest
+    · rw [ins_id (hf [] e rest rfl hfin)]
+      exact foldl_ins_id_final n rest A hlen' hp' hf'
+    · obtain ⟨ms, e1, post, hr, hk⟩ := split_first_same rest hfin
+      have : rest.foldl ins (ins A e) = rest.foldl ins A := by
+        rw [hr, show ms ++ e1 :: post = (ms ++ [e1]) ++ post by simp]
+        have h1 := overwritten_irrelevant hk ms A (hp e (List.mem_cons_self ..))
+        simp only [List.foldl_append] at h1 ⊢
+        rw [h1]
+      rw [this]
+      exact foldl_ins_id_final n rest A hlen' hp' hf'
+
+theorem has_final : ∀ (es : List Ent) (T : Table) (pre : List Ent) (e : Ent) (post : List Ent),
+    es = pre ++ e :: post → Final e post → Has (es.foldl ins T) e
+  | _, T, [], e, post, rfl, hfin => by
+    simp only [List.nil_append, List.foldl_cons]
+    exact has_preserved post (ins T e) (valAt_ins_self T e)
+      fun e' he' h1 h2 h3 => absurd ⟨h1, h2, h3⟩ (hfin e' he')
+  | _, T, p :: pre, e, post, rfl, hfin => by
+    simp only [List.cons_append, List.foldl_cons]
+    exact has_final _ (ins T p) pre e post rfl hfin
+
+theorem present_foldl : ∀ (es : List Ent) (T : Table), ∀ e ∈ es, Present (es.foldl ins T) e
+  | [], _, _, h => by cases h
+  | x :: xs, T, e, h => by
+    simp only [List.foldl_cons]
+    rcases List.mem_cons.1 h with h' | h'
+    · subst h'
+      have : ∀ (ys : List Ent) (A : Table), Present A e → Present (ys.foldl ins A) e := by
+        intro ys
+        induction ys with
+        | nil => intro A h; exact h
+        | cons y ys ih => intro A h; exact ih _ (present_ins A e y h)
+      exact this xs _ (present_ins_self T e)
+    · exact present_foldl xs _ e h'
+
+theorem present_pad (lists : List CList) {T : Table} {e : Ent} (h : Present T e) : Present (pad lists T) e := by
+  unfold Present at h ⊢
+  obtain ⟨t, ht⟩ := Option.isSome_iff_exists.1 h
+  have := has_pad lists (T := T) (e := ⟨e.lang, e.path, e.form, t⟩) ht
+  unfold Has at this
+  simp only at this
+  rw [this]; rfl
+
+/-- **Re-running `_setup_translations` and `_setup_media` on the padded table of the first `xml()`
+changes nothing** — neither a text nor the position of any language, path or content type — for
+every entry list (a leaf assigned several times keeps, both times, the text assigned last). -/
+theorem second_setup_noop (lists : List CList) (es : List Ent) :
+    es.foldl ins (pad lists (setup es)) = pad lists (setup es) :=
+  foldl_ins_id_final es.length es _ rfl
+    (fun e he => present_pad lists (present_foldl es [] e he))
+    (fun pre e post hes hfin => has_pad lists (has_final es [] pre e post hes hfin))
+
 /-! ### the second `xml()` -/
 
 /-- **`_translations` across repeated `xml()` calls** (nesting, media, padding): the table after the
 second `xml_model()` — setup and media entries assigned again into the *padded* table of the first
-call, then padded again — is the table after the first; so is every later one.  Guard `NoConflict`:
-see `second_setup_noop`. -/
-theorem itext_setup_idempotent (lists : List CList) (es : List Ent) (hn : NoConflict es) :
+call, then padded again — is the table after the first; so is every later one.  No guard. -/
+theorem itext_setup_idempotent (lists : List CList) (es : List Ent) :
     pad lists (es.foldl ins (pad lists (setup es))) = pad lists (setup es) := by
-  rw [second_setup_noop lists es hn, pad_pad]
+  rw [second_setup_noop lists es, pad_pad]
 
 /-- … hence the `<itext>` block of the regenerated XForm is the same -/
-theorem itext_block_idempotent (dl : Str) (lists : List CList) (es : List Ent) (hn : NoConflict es) :
+theorem itext_block_idempotent (dl : Str) (lists : List CList) (es : List Ent) :
     itext dl (pad lists (es.foldl ins (pad lists (setup es)))) = itext dl (pad lists (setup es)) := by
-  rw [itext_setup_idempotent lists es hn]
+  rw [itext_setup_idempotent lists es]
 
 def demoEnts : List Ent :=
   [⟨"en".toList, "yn-0".toList, "long".toList, "txt".toList⟩, ⟨"fr".toList, "yn-0".toList, "long".toList, "txt".toList⟩,
@@ -544,6 +730,9 @@ def demoEnts : List Ent :=
 
 instance : Decidable (NoConflict demoEnts) := by unfold NoConflict; infer_instance
 example : NoConflict demoEnts := by decide
+-- a leaf assigned twice with different texts (not `NoConflict`) is covered as well:
+def demoEnts2 : List Ent := demoEnts ++ [⟨"en".toList, "yn-0".toList, "long".toList, "other".toList⟩]
+example : pad [] (demoEnts2.foldl ins (pad [] (setup demoEnts2))) = pad [] (setup demoEnts2) := by rfl
 -- the padded table really has padding (French lacks the guidance hint and the label text):
 example : valAt (pad [] (setup demoEnts)) "fr".toList "/d/q:hint".toList "guidance".toList = some dashStr := by decide
 example : pad [] (demoEnts.foldl ins (pad [] (setup demoEnts))) = pad [] (setup demoEnts) := by rfl
